@@ -18,6 +18,18 @@ def scratch(prefix: str = "lspverif-") -> str:
     return tempfile.mkdtemp(prefix=prefix, dir=os.environ.get("LSPVERIF_TMP", "/tmp"))
 
 
+def prepare_test_dir(plugin: str, out_dir: str) -> str:
+    """the --test-dir of a run. The rust plugin also rewrites a marked region of the test harness when the test directory
+    has one: it gets a copy of the repository's (the project's own build runs with tests/rust in place; the checks never
+    write there)."""
+    test_dir = os.path.join(out_dir, "_tests")
+    if plugin == "rust" and not os.path.exists(test_dir):
+        harness = os.path.join(REPO, "tests", "rust")
+        if os.path.isdir(harness):
+            shutil.copytree(harness, test_dir)
+    return test_dir
+
+
 def run_generator(plugin: str, out_dir: str, models: Optional[Sequence[str]] = None, hashseed: int = 0,
                   timeout: int = 600, spelling: str = "default") -> subprocess.CompletedProcess:
     """`python -m generator --plugin <p> --output-dir out --test-dir out/tests [--model ...]`.
@@ -28,7 +40,7 @@ def run_generator(plugin: str, out_dir: str, models: Optional[Sequence[str]] = N
               "minpath"  - as default, with a search path that holds no developer tools;
               "elsewhen" - as default, on another day (clock shifted), as another user on another machine whose file system
                            lists directories in another order."""
-    test_dir = os.path.join(out_dir, "_tests")
+    test_dir = prepare_test_dir(plugin, out_dir)
     cwd = REPO
     tmp_cwd = None
     if spelling == "cwd":
